@@ -3,7 +3,7 @@ import re
 
 from engine import site_of
 from facts import callee_decl, callee_name
-from flow import tracer, short, required_outcomes, dep_closure, switch_cond, edge_outcome, deep_origins
+from flow import tracer, short, required_outcomes, dep_closure, switch_cond, edge_outcome, deep_origins, is_next_switch
 
 EXPLANATION = (
     "R1: the predicates that gate Updates::send / Mutations::send in send_messages look at content, not capacity - no "
@@ -12,8 +12,10 @@ EXPLANATION = (
     "same containers. R2: in ClientTicks::ack_mutate_message every store into a per-entity mutation tick stores the tick "
     "recorded for the acknowledged message, only on the `Some` edge of the in-flight lookup and only when the stored tick is "
     "not newer. R3: closed classification of every writer of ClientTicks.mutation_ticks (setter with the system's this_run, "
-    "ack, remover); the field is private. R4: the client acknowledges exactly the mutate messages it buffered and sends the "
-    "acks after the receive loop.")
+    "ack, remover); the field is private. R4: the client acknowledges exactly the mutate messages it has consumed: the acknowledgement "
+    "write sits behind the `message.update_tick <= current update tick` test, carries the index decoded from that message, is reached on every path on which the "
+    "message leaves the buffer, and the collected buffer is sent once, after consuming, outside loops. R5: an acknowledgement covers exactly the entities whose data "
+    "travelled in that message (C10.R1). R6: the recycled entity lists behind the acknowledgement table are empty when reused.")
 NOT_DECIDED = "re-send liveness (a mutation keeps being re-sent every tick until acknowledged) over arbitrary loss patterns; traffic at rest as a quantity"
 TRUSTED_BASE = ["bevy_ecs::component::Tick::is_newer_than", "hash-map remove/get_mut contracts"]
 
@@ -287,65 +289,115 @@ def r3_writers(ctx):
 
 
 def r4_client_acks(ctx):
+    """The client acknowledges exactly the mutate messages it has *consumed* (applied, or skipped per entity as outdated), with the
+    index decoded from that message, and always sends the collected acknowledgements. An acknowledgement for a message that is
+    merely buffered (waiting for its update message) lets the server stop re-sending data the client may later skip as outdated."""
+    from flow import cmp_facts, resolve_through_closure
     F = ctx.F
     _F[0] = F
-    bm = ctx.fn("client::buffer_mutate_message")
-    tr = tracer(bm)
-    ins = [bb for bb, t in bm.calls() if callee_decl(t).endswith("BufferedMutations::insert")]
-    acks = [(bb, t) for bb, t in bm.calls() if callee_decl(t).endswith("postcard_utils::to_extend_mut") and any("MutateIndex" in a for a in t["callee"]["args"])]
-    ctx.check(len(ins) == 1 and len(acks) == 1, "buffer_mutate_message/one-insert-one-ack", site_of(bm), "%d inserts / %d ack writes" % (len(ins), len(acks)))
-    if ins and acks:
-        abb, at = acks[0]
-        ctx.check(bm.dominates(ins[0], abb), "buffer_mutate_message/ack-after-buffering", site_of(bm, abb),
-                  "the acknowledgement is written although the message may not have been buffered: the server would stop re-sending data the client dropped")
-        ctx.check(bm.postdominates(abb, ins[0]) or not [e for e in bm.exits() if bm.reachable_avoiding(e, (), start=ins[0], removed_blocks=(abb,))
-                                                       and not _only_error_exits(bm, ins[0], abb)],
-                  "buffer_mutate_message/every-buffered-message-acked", site_of(bm, ins[0]),
-                  "a buffered message may go unacknowledged")
-        # the acknowledged index is the one decoded from this message
-        src = tr.operand(at["args"][0])
-        ok = bool(src) and all(o.kind == "call" and callee_decl(bm.blocks[o.data].term).endswith("postcard_utils::from_buf") for o in src)
-        ctx.check(ok, "buffer_mutate_message/acks-decoded-index", site_of(bm, abb), "the acknowledged index is not the one decoded from the message")
-        dst = tr.operand(at["args"][1])
-        ctx.check(bool(dst) and all(o.kind == "param" for o in dst), "buffer_mutate_message/ack-into-callers-buffer", site_of(bm, abb), "ack is not appended to the caller's buffer")
+    BM = "bevy_replicon::client::BufferedMutate"
+    sites = []
+    for b in F.real_fns():
+        if "::tests::" in b.path or not b.path.startswith("bevy_replicon::client"):
+            continue
+        for bb, t in b.calls():
+            if callee_decl(t).endswith("postcard_utils::to_extend_mut") and any("MutateIndex" in a_ for a_ in t["callee"]["args"]):
+                sites.append((b, bb, t))
+    if not ctx.check(len(sites) == 1, "client/one-ack-write-site", "", "%d sites write a MutateIndex acknowledgement" % len(sites)):
+        return
+    b, abb, at = sites[0]
+    tr = tracer(b)
+
+    def is_msg_field(op, field):
+        return any(any(e[0] == "f" and e[2] == field and e[3] == BM for e in o.path) for o in tr.operand(op))
+    # (a) only for a message that is being consumed: behind the `its update tick has been reached` test
+    ready = None
+    for (sb, c, o) in required_outcomes(F, b, abb):
+        if c["kind"] != "cmp" or len(o) != 1:
+            continue
+        out = next(iter(o))
+        if out not in (True, False):
+            continue
+        rel, x, y = cmp_facts(c, out)
+        if is_msg_field(x, "update_tick") and not is_msg_field(y, "update_tick") and rel in ("<=", "<", "=="):
+            ready = sb
+        if is_msg_field(y, "update_tick") and not is_msg_field(x, "update_tick") and rel in (">=", ">", "=="):
+            ready = sb
+    ctx.check(ready is not None, "client/ack-only-when-consumed", site_of(b, abb),
+              "a mutate message is acknowledged although it may only have been buffered (no `message.update_tick <= current update tick` test guards the acknowledgement): "
+              "the server stops re-sending its data, and if a later update message for the same entity arrives first, the buffered data is skipped as outdated and lost "
+              "- the client stays confirmed at the newer tick with the old value")
+    # (b) the acknowledged index is the one decoded from the message itself
+    src = tr.operand(at["args"][0])
+    direct = bool(src) and all(o.kind == "call" and callee_decl(b.blocks[o.data].term).endswith("postcard_utils::from_buf") for o in src)
+    via_field = is_msg_field(at["args"][0], "mutate_index")
+    stored_ok = False
+    if via_field:
+        for cb in F.real_fns():
+            if not cb.path.startswith("bevy_replicon::client"):
+                continue
+            ctr = None
+            for bb2, i2, st2 in cb.statements():
+                if st2["s"] == "assign" and st2["rvalue"]["rv"] == "agg" and st2["rvalue"].get("adt") == BM:
+                    ctr = ctr or tracer(cb)
+                    idx = st2["rvalue"]["fields"].index("mutate_index")
+                    o2 = ctr.operand(st2["rvalue"]["ops"][idx])
+                    stored_ok = bool(o2) and all(x.kind == "call" and callee_decl(cb.blocks[x.data].term).endswith("postcard_utils::from_buf") for x in o2)
+    ctx.check(direct or (via_field and stored_ok), "client/acks-decoded-index", site_of(b, abb), "the acknowledged index is not the one decoded from the message")
+    # (c) every consumed message is acknowledged: from the `ready` edge no exit without the ack write
+    if ready is not None:
+        c = switch_cond(b, ready)
+        pass_targets = []
+        for (t2, lab) in b.succ[ready]:
+            if b.reachable_avoiding(abb, [], start=t2):
+                pass_targets.append(t2)
+        skipping = [e for e in b.exits() for t2 in pass_targets if b.reachable_avoiding(e, (), start=t2, removed_blocks=(abb,))]
+        ctx.check(not skipping, "client/every-consumed-message-acked", site_of(b, ready), "a consumed message may go unacknowledged (the server would re-send it until the timeout)")
+    # (d) the collected acknowledgements are sent, after the consumer ran, outside any loop
     ar = ctx.fn("client::apply_replication")
     atr = tracer(ar)
-    bms = [(bb, t) for bb, t in ar.calls() if callee_decl(t).endswith("client::buffer_mutate_message")]
-    sends = [(bb, t) for bb, t in ar.calls() if callee_decl(t).endswith("RepliconClient::send")]
-    ok_send = []
-    for bb, t in sends:
-        ch = atr.operand(t["args"][1])
-        is_ack = False
-        for o in ch:
-            if o.kind == "stmt":
-                rv = ar.blocks[o.data[0]].stmts[o.data[1]]["rvalue"]
-                if rv["rv"] == "agg" and rv.get("variant") == "MutationAcks":
-                    is_ack = True
-        if is_ack:
-            ok_send.append((bb, t))
-    ctx.check(len(bms) == 1 and len(ok_send) == 1, "apply_replication/one-ack-send", site_of(ar), "%d buffer calls / %d ack sends" % (len(bms), len(ok_send)))
-    if bms and ok_send:
-        bbb, bt = bms[0]
-        sbb, st = ok_send[0]
-        same = atr.operand(bt["args"][3]) & atr.operand(st["args"][2])
-        ctx.check(bool(same), "apply_replication/sends-the-collected-acks", site_of(ar, sbb), "the buffer sent on the acks channel is not the one the acks were written into")
-        loops = ar.loops_containing(bbb)
-        ctx.check(bool(loops) and not any(sbb in bs for h, bs in loops), "apply_replication/acks-sent-after-loop", site_of(ar, sbb), "acks are sent inside the receive loop or without one")
-        if loops:
-            h, bs = max(loops, key=lambda x: len(x[1]))
-            exits = [t2 for a in bs for (t2, lab) in ar.succ[a] if t2 not in bs]
-            ok = all(not [e for e in ar.exits() if ar.reachable_avoiding(e, (), start=x, removed_blocks=(sbb,))] for x in exits)
-            ctx.check(ok, "apply_replication/acks-always-sent", site_of(ar, sbb), "after receiving mutate messages the function can return without sending the acknowledgements")
-        # the loop drains the Mutations channel
-        rc = [t for bb, t in ar.calls() if callee_decl(t).endswith("RepliconClient::receive") and ar.dominates(bb, bbb)]
-        chans = set()
-        for t in rc:
+    sends = []
+    for bb, t in ar.calls():
+        if callee_decl(t).endswith("RepliconClient::send"):
             for o in atr.operand(t["args"][1]):
                 if o.kind == "stmt":
                     rv = ar.blocks[o.data[0]].stmts[o.data[1]]["rvalue"]
-                    if rv["rv"] == "agg":
-                        chans.add(rv.get("variant"))
-        ctx.check("Mutations" in chans, "apply_replication/drains-mutations-channel", site_of(ar), "channels drained before buffering: %s" % chans)
+                    if rv["rv"] == "agg" and rv.get("variant") == "MutationAcks":
+                        sends.append((bb, t))
+    if not ctx.check(len(sends) == 1, "apply_replication/one-ack-send", site_of(ar), "%d sends on the acknowledgement channel" % len(sends)):
+        return
+    sbb, st = sends[0]
+    payload = {(o.kind, o.data) for o in atr.operand(st["args"][2])}
+    # the call (in apply_replication) through which the ack-writing function receives its buffer
+    root = F.fns.get(b.j.get("closure_root", b.path)) or b
+    feeders = [(bb, t) for bb, t in ar.calls() if callee_decl(t) == root.path]
+    ok_buf = False
+    for bb, t in feeders:
+        for a_ in t["args"]:
+            if {(o.kind, o.data) for o in atr.operand(a_)} & payload:
+                ok_buf = True
+    ctx.check(bool(feeders) and ok_buf, "apply_replication/sends-the-collected-acks", site_of(ar, sbb), "the buffer sent on the acks channel is not the one the acknowledgements were written into")
+    ctx.check(not ar.loops_containing(sbb), "apply_replication/acks-sent-after-loop", site_of(ar, sbb), "acks are sent inside a loop")
+    ctx.check(all(ar.dominates(bb, sbb) for bb, _ in feeders), "apply_replication/acks-sent-after-consuming", site_of(ar, sbb), "acks are sent before the messages are consumed")
+    extra = []
+    for (sb, c, o) in required_outcomes(F, ar, sbb):
+        if c["kind"] == "boolcall" and c["name"].endswith("::is_empty") and o == {False}:
+            continue
+        if c["kind"] == "cmp":
+            continue  # `acks_size != 0`-style emptiness tests
+        if is_next_switch(ar, c):
+            continue  # leaving the receive loops
+        extra.append((c["kind"], c.get("name"), sorted(map(str, o))))
+    ctx.check(not extra, "apply_replication/acks-always-sent", site_of(ar, sbb), "sending the acknowledgements additionally depends on %s" % extra)
+    rc = [t for bb, t in ar.calls() if callee_decl(t).endswith("RepliconClient::receive")]
+    chans = set()
+    for t in rc:
+        for o in atr.operand(t["args"][1]):
+            if o.kind == "stmt":
+                rv = ar.blocks[o.data[0]].stmts[o.data[1]]["rvalue"]
+                if rv["rv"] == "agg":
+                    chans.add(rv.get("variant"))
+    ctx.check("Mutations" in chans, "apply_replication/drains-mutations-channel", site_of(ar), "channels drained: %s" % chans)
 
 
 def _only_error_exits(body, start, avoid):
@@ -376,7 +428,7 @@ RULES = [
     ("C11.R1", "send gates test content (not the outer length of nested buffers); predicates/flags/sections agree", r1_send_gates, 8, ["default", "all-features", "server-only"]),
     ("C11.R2", "acknowledgement stores the recorded tick, only for known messages, forward-only", r2_ack, 6, ["default", "all-features", "server-only"]),
     ("C11.R3", "closed set of writers of the per-entity mutation tick", r3_writers, 5, ["default", "all-features", "server-only"]),
-    ("C11.R4", "the client acknowledges exactly what it buffered and always sends the acks", r4_client_acks, 8, ["default", "all-features", "client-only"]),
+    ("C11.R4", "the client acknowledges exactly the messages it has consumed, with their own index, and always sends the acks", r4_client_acks, 8, ["default", "all-features", "client-only"]),
     ("C11.R5", "an acknowledgement covers exactly the entities whose data travelled in that message, so acknowledging one message never skips data of another (same rule as C10.R1)", r5_ack_lists, 12, ["default", "all-features", "server-only"]),
     ("C11.R6", "recycled acknowledgement entity lists are empty when reused (an ack never covers entities of an earlier message)", r6_ack_list_pool, 1, ["default", "all-features", "server-only"]),
 ]
